@@ -142,8 +142,12 @@ class Gen:
         def sentinel():
             f = find_def(self.tree(s), 'logrotate_log_sort')
             rets = [n for n in ast.walk(f) if isinstance(n, ast.Return)]
-            vals = [n.value.value for n in rets
-                    if isinstance(n.value, ast.Constant)]
+            # a literal may sit behind a single-assignment module constant
+            vals = [v.value for v in
+                    (resolve_const(self.tree(s), n.value)
+                     if isinstance(n.value, ast.Name) else n.value
+                     for n in rets)
+                    if isinstance(v, ast.Constant)]
             if len(rets) != 3 or sorted(vals) != [0, 100000]:
                 raise Untranslatable("logrotate_log_sort: unexpected returns "
                                      f"{[ast.unparse(n) for n in rets]}")
